@@ -341,7 +341,13 @@ func VerifGetData() {
 	verifrt.Reach("getdata-driven")
 	if !returned {
 		// legitimate only while the handler cannot know that the client is gone
-		verifrt.Assert(st.stalled > 0 || (st.failed > 0 && ctx.Err() == nil), "C19-getdata-returns-when-data-exhausted")
+		// legitimate only while the handler waits for something that will come: a Send that does
+		// not come back (flow control) ends with the client's cancellation; a Send answered io.EOF
+		// means gRPC has ended the stream and cancels its context (the stub leaves the context
+		// alive a little longer). A Send that fails with any OTHER error (message too large,
+		// resource exhausted) leaves the stream and its context alive: nothing else will come,
+		// the handler has to get to the end of the data by itself
+		verifrt.Assert(st.stalled > 0 || (st.mode == v19SendFailEOF && st.failed > 0 && ctx.Err() == nil), "C19-getdata-returns-when-data-exhausted")
 		if st.stalled > 0 {
 			verifrt.Reach("send-stalled")
 		}
